@@ -469,3 +469,89 @@ func TestC16_GsxCleanupRace(t *testing.T) {
 		}
 	})
 }
+
+// TestC20_GsxLoop: graphsync serves Pause / Unpause on the same run loop that delivers
+// the notifications arriving from the network. A notification that reached the loop
+// first (the requester cancelled its request - which is what a restarting or closing
+// requester does) is delivered before the call is served; the call must still return.
+func TestC20_GsxLoop(t *testing.T) {
+	sp := stats.For("C20")
+	rapid.Check(t, func(t *rapid.T) {
+		r := newGsRig(t)
+		m := &gsModel{t: t, r: r, owner: map[graphsync.RequestID]*gch{}}
+		// two channels on which the local node sends the data (it serves the graphsync requests)
+		var chans []*gch
+		for i := 0; i < 2; i++ {
+			role := rapid.SampledFrom([]string{"receivePull", "createPush"}).Draw(t, "role")
+			c := &gch{role: role, other: gen.Peer(1 + i), tid: datatransfer.TransferID(20 + i)}
+			c.chid = chidFor(r.self, role, c.other, c.tid)
+			chans = append(chans, c)
+		}
+		m.chans = chans
+		for _, c := range chans {
+			m.logf("channel %s %s", c.role, chidStr(c.chid))
+			m.opIncoming(c, true, false)
+		}
+		n := rapid.IntRange(1, 6).Draw(t, "calls")
+		crossed := 0
+		for i := 0; i < n; i++ {
+			c := chans[rapid.IntRange(0, 1).Draw(t, "channel")]
+			ahead := rapid.SampledFrom([]string{"nothing", "cancel-of-this-request", "cancel-of-the-other-request", "both"}).Draw(t, "arrivedFirst")
+			var delivered []*gch
+			for _, o := range chans {
+				if (o == c && (ahead == "cancel-of-this-request" || ahead == "both")) || (o != c && (ahead == "cancel-of-the-other-request" || ahead == "both")) {
+					o := o
+					rid := *o.current
+					r.gs.QueueOnLoop(func() { r.gs.RequestorCancelledListener(o.other, &dbl.ReqData{RID: rid}) })
+					delivered = append(delivered, o)
+					if o == c {
+						crossed++
+					}
+				}
+			}
+			call := rapid.SampledFrom([]string{"resume", "resume-with-message", "pause"}).Draw(t, "call")
+			m.logf("%s(%s) while the loop first delivers: %s", call, chidStr(c.chid), ahead)
+			umsg := message.UpdateResponse(c.tid, false)
+			ok := within(func() {
+				switch call {
+				case "pause":
+					_ = r.tr.PauseChannel(bg(), c.chid)
+				case "resume":
+					_ = r.tr.ResumeChannel(bg(), nil, c.chid)
+				default:
+					_ = r.tr.ResumeChannel(bg(), umsg, c.chid)
+				}
+			})
+			if !ok {
+				m.fail("C20/call-blocked-behind-graphsync-loop", "%s did not return within %s: it waits for graphsync's run loop while the loop waits to deliver a requestor-cancelled notification for the same channel", call, watchdog)
+			}
+			if call == "resume-with-message" && c.reqCancel {
+				// the requester was already known to be away: the message waits for its next request
+				c.pending = append(c.pending, msgKey(umsg))
+			}
+			// whatever the call did not make the loop deliver is delivered now
+			if !within(func() { r.gs.OnLoop(func() {}) }) {
+				m.fail("C20/graphsync-loop-blocked", "graphsync's run loop is still blocked in a notification after the call returned")
+			}
+			for _, o := range delivered {
+				o.reqCancel = true
+			}
+			// the requester comes back with a new request
+			if rapid.Bool().Draw(t, "requesterBack") {
+				for _, o := range chans {
+					m.opIncoming(o, true, false)
+				}
+			}
+		}
+		sp.Eval()
+		sp.Class("gsx_call_vs_run_loop")
+		if crossed > 0 {
+			fp := stats.FP("loop", m.log)
+			sp.Nontrivial(fp)
+			if sp.WantSample() {
+				sp.Sample(fp, map[string]any{"engine": "gsx", "history": m.log})
+			}
+			sp.Class("gsx_cancel_notification_ahead_of_call")
+		}
+	})
+}
